@@ -353,6 +353,20 @@ CLAUSES = {
         _a("ChildRes", c="B", p="A", res=["p1", "p2", "a1"]),
         _a("Step", task="sync_B_with_parent_A"),
         _a("RollActivate", c="B"), _a("Settle")]},
+    # C01 / C04: the new key's certificate holds less than the old key's
+    # (the entitlement shrank, the roll began before the CA learnt of it: the
+    # open request for the new key is sent instead of the list query): at
+    # activation only what the new certificate covers is re-issued
+    "roll-new-key-covers-less": {"actions": [
+        _a("AddCa", c="B", p="A", res=["p1", "p2", "a1"]), _a("Settle"),
+        _a("RoaAdd", c="B", r=["p1", "a1"]),
+        _a("RoaAdd", c="B", r=["p2", "a1"]),
+        _a("AspaSet", c="B", cust="a1", prov=["a2"]),
+        _a("RtrAdd", c="B", r=["a1", "rtr:k1"]), _a("Settle"),
+        _a("ChildRes", c="B", p="A", res=["p1"]),
+        _a("RollInit", c="B"),
+        _a("Step", task="sync_B_with_parent_A"),
+        _a("RollActivate", c="B"), _a("Settle")]},
     # C04: the child rolls while its parent rolls
     "roll-parent-and-child": {"actions": [
         _a("AddCa", c="B", p="A", res=["p1", "p2"]), _a("Settle"),
